@@ -155,7 +155,25 @@ func c12Mpd(c *Ctx) {
 		}
 		for _, cf := range []cfgVar{mkCfg(0, 60, 0, 0, "n"), mkCfg(61, 30, 5, 0, "n"), mkCfg(0, 30, 0, 0, "tlt"), mkCfg(61, 60, 3, 0, "tln")} {
 			cfgS := strings.TrimPrefix(cf.s+",timesubsstpp=en,timesubswvtt=sv", "-,")
-			for _, now := range []int64{int64(cf.startS)*1000 + int64(a.LoopDurMS)*3 + 1700, int64(cf.startS)*1000 + 1790000000000%int64(a.LoopDurMS) + 100*int64(a.LoopDurMS) + 333} {
+			nows := []int64{int64(cf.startS)*1000 + int64(a.LoopDurMS)*3 + 1700, int64(cf.startS)*1000 + 1790000000000%int64(a.LoopDurMS) + 100*int64(a.LoopDurMS) + 333}
+			// instants at which the first listed segment starts at a whole millisecond that the float product t * (1000/T)
+			// misses from below (timescales like 12288): where mirroring by truncation instead of rounding shows
+			if T := uint64(ref.MediaTimescale); cf.mode != "n" && T > 0 {
+				found := 0
+				for k := 1; k < 6000 && found < 3; k++ {
+					e := expectSeg(a, ref, k, 0)
+					if e.start*1000%T != 0 {
+						continue
+					}
+					x := float64(e.start) * (1000 / float64(T))
+					if uint64(x) != e.start*1000/T {
+						nows = append(nows, int64(cf.startS)*1000+int64(e.end*1000/T)+int64(cf.tsbd)*1000+1)
+						found++
+						c.Count("subs-mpd-float-edge-instants")
+					}
+				}
+			}
+			for _, now := range nows {
 				url := mpdURL(a.AssetPath, cfgS, a.MPDs[0], strconv.FormatInt(now, 10))
 				res := doLive("GET", url)
 				m, err := parseMPD(res.body)
